@@ -55,6 +55,18 @@ TABLES = {
 }
 
 
+RECODERS = {
+    "ed25519": {"recode_scalar": "scalar", "recode_scalar_NAF": "scalar", "recode_u128_NAF": "u128"},
+    "p256": {"recode_scalar": "scalar", "recode_scalar_NAF": "scalar", "recode_u129_NAF": "u129"},
+    "secp256k1": {"recode_scalar": "scalar", "recode_u128": "u128", "recode_scalar_NAF": "scalar",
+                  "recode_u128_NAF": "u128"},
+    "jq255e": {"recode_u128": "u128", "recode_scalar_NAF": "scalar", "recode_u128_NAF": "u128"},
+    "jq255s": {"recode_scalar": "scalar", "recode_scalar_NAF": "scalar", "recode_u128_NAF": "u128"},
+    "ed448": {"recode_scalar": "scalar", "recode_scalar_NAF": "scalar", "recode_halfwidth_NAF": "bytes28"},
+    "gls254": {"recode5_u128": "u128", "recode4_u128": "u128", "recode5_u64": "u64", "recode3_u128": "u128"},
+}
+
+
 def module_source(curve):
     d = CURVES[curve]
     F = d["F"]
@@ -119,6 +131,22 @@ def module_source(curve):
     A("            \"mulgen\" => { let sc = Scalar::decode_reduce(&a[a.len() - 1]); P.set_mulgen(&sc); }")
     A("            \"basemul\" => { P = Point::BASE; P.set_xdouble(n as u32); let kk = u64::from_le_bytes(<[u8; 8]>::try_from(&a[a.len() - 1][..8]).unwrap()); P.set_mul_small(kk); }")
     A("            \"base\" => { P = Point::BASE; }")
+    for rname, kind in RECODERS.get(curve, {}).items():
+        if kind == "scalar":
+            call = "let sc = Scalar::decode_reduce(&a[a.len() - 1]); let sd = Point::%s(&sc);" % rname
+        elif kind == "u128":
+            call = "let v = u128::from_le_bytes(<[u8; 16]>::try_from(&a[a.len() - 1][..16]).unwrap()); let sd = Point::%s(v);" % rname
+        elif kind == "u64":
+            call = "let v = u64::from_le_bytes(<[u8; 8]>::try_from(&a[a.len() - 1][..8]).unwrap()); let sd = Point::%s(v);" % rname
+        elif kind == "u129":
+            call = ("let h = u32::from_le_bytes(<[u8; 4]>::try_from(&a[a.len() - 2][..4]).unwrap()); "
+                    "let v = u128::from_le_bytes(<[u8; 16]>::try_from(&a[a.len() - 1][..16]).unwrap()); "
+                    "let sd = Point::%s(h, v);" % rname)
+        elif kind == "bytes28":
+            call = "let bb = <[u8; 28]>::try_from(&a[a.len() - 1][..28]).unwrap(); let sd = Point::%s(&bb);" % rname
+        else:
+            continue
+        A("            \"recode:%s\" => { %s return vec![sd.iter().map(|x| *x as u8).collect()]; }" % (rname, call))
     if not d.get("wrap"):
         A("            \"vt\" => { let su = Scalar::decode_reduce(&a[a.len() - 2]); let sv = Scalar::decode_reduce(&a[a.len() - 1]); P.set_mul_add_mulgen_vartime(&su, &sv); }")
     if curve in ("jq255e", "jq255s"):
